@@ -6,3 +6,6 @@ package verifhook
 
 // At marks a synchronisation point. No-op unless built with -tags verif.
 func At(point string, keys ...string) {}
+
+// Enabled reports whether the hooks are compiled in.
+const Enabled = false
